@@ -103,6 +103,22 @@ Discord(p, R) ==
 \* What the code does with the cell afterwards is attributed to the residual of finding F2.
 HasFallbackVertex == \E v \in verts : ~IndependentAt(planes, v.t)
 Attr(reason) == IF HasFallbackVertex THEN "discord" ELSE reason
+Fallback(v) == ~IndependentAt(planes, v.t)
+
+\* The removed dual triangles form a disc: their boundary is ONE simple cycle (every plane on it has exactly one outgoing and
+\* one incoming boundary edge, and following the edges from any plane comes back after visiting all of them).  Only then can
+\* compute_boundary rebuild the cycle; a removed set that is not a disc is what the residual of finding F2 consists of (tie
+\* decisions taken on snapped coordinates that do not fit the cell built so far).
+RECURSIVE OrbitLen(_, _, _, _)
+OrbitLen(B, start, cur, n) ==
+    LET nxt == (CHOOSE e \in B : e[1] = cur)[2]
+    IN IF nxt = start \/ n > Cardinality(B) THEN n ELSE OrbitLen(B, start, nxt, n + 1)
+IsDisc(R) ==
+    LET B == BoundaryEdges(R)
+        N == {e[1] : e \in B} \cup {e[2] : e \in B}
+    IN /\ B # {}
+       /\ \A x \in N : Cardinality({e \in B : e[1] = x}) = 1 /\ Cardinality({e \in B : e[2] = x}) = 1
+       /\ OrbitLen(B, (CHOOSE e \in B : TRUE)[1], (CHOOSE e \in B : TRUE)[1], 1) = Cardinality(B)
 
 TClip ==
     /\ IsEvent("clip")
@@ -123,7 +139,11 @@ TClip ==
        ELSE IF ~(\E s \in cmp : s >= 0) THEN Skip("clipped although the safety radius was already below the distance")
        ELSE IF Cardinality(R) # Len(Line.rem) \/ Cardinality(TriSet(Line.rem)) # Len(Line.rem)
             THEN Skip("removed vertices are not vertices of the cell")
-       ELSE IF ~(so \subseteq R /\ R \subseteq so \cup on) THEN Skip(Attr("removed set differs from the strictly clipped vertices (plus ties)"))
+       \* (a decision that differs from the exact side is attributed to finding F2 only for fall-back vertices - the only vertices
+       \* whose location the code and the exact replay may disagree about)
+       ELSE IF ~(so \subseteq R /\ R \subseteq so \cup on)
+            THEN Skip(IF \A v \in (so \ R) \cup (R \ (so \cup on)) : Fallback(v) THEN "discord"
+                      ELSE "removed set differs from the strictly clipped vertices (plus ties)")
        ELSE IF R = {}
             THEN IF Len(Line.new) # 0 THEN Skip("vertices created although nothing was removed")
                  ELSE /\ visited' = visited \cup {q}
@@ -180,7 +200,10 @@ TClipFail ==
                            dep == \E e \in BoundaryEdges(R) : ~IndependentAt(ps2, <<e[1], e[2], pi>>)
                            \* tie decisions (taken on snapped coordinates) took part in the removed set of the failing clip
                            tied == OnPlane(p) # {}
-                       IN IF q \in Cands /\ (HasFallbackVertex \/ Discord(p, R) \/ dep \/ tied) THEN "discord" ELSE "panic inside a clip"
+                       \* residual of finding F2: the removed set the code arrived at (through tie decisions on snapped coordinates or
+                       \* decisions about a fall-back vertex) is not a disc, so its boundary cannot be rebuilt.  A panic although the
+                       \* removed set IS a disc (e.g. a split edge whose new vertex is not placed on the edge) is not excused.
+                       IN IF q \in Cands /\ (HasFallbackVertex \/ tied) /\ ~IsDisc(R) THEN "discord" ELSE "panic inside a clip"
 
 \* What the finished cell must look like.
 FinalChecks(ln) ==
